@@ -261,6 +261,36 @@ def boundary_graph(rnd):
     return T, [[k, n] for k in ks]
 
 
+def fan_case(rnd, cid, thr=None):
+    """shape-map shapes: a hub L0 whose nodes link, through one property per leaf, to the nodes of 2-4 leaf shapes L1..Lk; a leaf's
+    only shared feature is held by m of its n nodes, so each leaf empties at its own threshold and several can go in the same
+    clean-up round: the hub then holds consecutive constraints that refer to shapes that are gone"""
+    k = rnd.randint(2, 4)
+    per = rnd.randint(2, 4)
+    hubs = [M.iri(EX + "h%d" % j) for j in range(per)]
+    T, items = [], []
+    for x in hubs:
+        items.append({"label": EX + "shapes/L0", "labelSpelling": "bracket", "spelling": "bracket", "kind": "node", "node": list(x)})
+    for i in range(1, k + 1):
+        leaves = [M.iri(EX + "l%d_%d" % (i, j)) for j in range(per)]
+        m = rnd.randint(0, per)
+        for j, x in enumerate(leaves):
+            items.append({"label": EX + "shapes/L%d" % i, "labelSpelling": "bracket", "spelling": "bracket", "kind": "node", "node": list(x)})
+            if j < m:
+                T.append((x, EX + "common%d" % i, M.lit("c")))
+            elif rnd.random() < .5:
+                T.append((x, EX + "odd%d_%d" % (i, j), M.lit("o")))
+        for j, h in enumerate(hubs):
+            T.append((h, EX + "to%d" % i, leaves[j % per]))
+    if rnd.random() < .5:
+        for h in hubs:
+            T.append((h, EX + "name", M.lit("n")))
+    if rnd.random() < .7:
+        rnd.shuffle(T)
+    return case(cid, T, mode="shapemap", items=items, thr=thr or rnd.choice([[1, 3], [1, 2], [51, 100], [2, 3], [3, 4], [1, 1]]),
+                removeEmpty=rnd.random() < .9, nsDict=NSDICT, inverse=rnd.random() < .2)
+
+
 def chain_case(rnd, cid):
     """shape-map shapes L0 -> L1 -> ... -> Ln linked by one property; the last shape has no feature shared by all its nodes, the
     middle ones only the link: with a threshold the removal of the last shape cascades backwards (remove_empty_shapes)"""
